@@ -226,6 +226,14 @@ func (in *inst) stmt(s ast.Stmt) ast.Stmt {
 			return g
 		}
 		return &ast.BlockStmt{List: append(pre, g)}
+	case *ast.DeferStmt:
+		// the deferred call itself (its field is a *ast.CallExpr, which the generic walk only descends into):
+		// `defer close(ch)` must become `defer verifrt.Close(ch)` like any other close
+		in.walk(x.Call)
+		if r, ok := in.expr(x.Call).(*ast.CallExpr); ok {
+			x.Call = r
+		}
+		return x
 	case *ast.SendStmt:
 		in.used = true
 		return &ast.ExprStmt{X: call(rtSel("Send"), in.walkExpr(x.Chan), in.walkExpr(x.Value))}
